@@ -1,6 +1,8 @@
 (* C18 driver: replays the Go trace on the extracted model of handleCommitMessage /
    verifyCommitMessageJustification and evaluates the property predicate (Model.prop_holds, the
-   predicate of C18_prop) on the implementation's observables. *)
+   predicate of C18_prop / C18_faults_sound) on the implementation's observables.
+   The model replayed is [handle_commit_f] (handle_commit + failing collaborators) over
+   [tree_chain_h] (the generated tree + a header GetHeader does not find). *)
 open Model
 open Vutil
 
@@ -13,6 +15,13 @@ let hres_str = function
   | HAccepted -> "ok" | HAlreadyFinalised -> "ok" | HNoTargetHeader -> "tnohdr" | HTargetNum -> "tnum"
   | HRejected e -> cerr_str e
 let res_str = function ROk _ -> "ok" | RErr e -> cerr_str e
+let fres_str = function
+  | FRes r -> hres_str r | FHasErr -> "haserr" | FHfErr -> "hferr" | FFinErr -> "finerr" | FStoreErr -> "storeerr"
+(* the numbering of C18/VmCheck.v [res_code] *)
+let code_of_res = function
+  | "ok" -> 0 | "tnohdr" -> 1 | "tnum" -> 2 | "len" -> 3 | "setid" -> 4 | "descstart" -> 5 | "descother" -> 6
+  | "notdesc" -> 7 | "nohdr" -> 8 | "pcnum" -> 9 | "minvotes" -> 10 | "haserr" -> 11 | "hferr" -> 12
+  | "finerr" -> 13 | "storeerr" -> 14 | _ -> 99
 
 let triple_str (a, b, c) = hex_of_n a ^ ":" ^ hex_of_n b ^ ":" ^ hex_of_n c
 let eff_str (e : effects) =
@@ -37,41 +46,68 @@ let parse_bits s =
 let rec take k l = if k <= 0 then [] else match l with [] -> [] | x :: r -> x :: take (k - 1) r
 let rec seqn a k = if k <= 0 then [] else n_of_int a :: seqn (a + 1) (k - 1)
 
-let check inp obs =
+type parsed = {
+  op : string; thr_opt : n option; n : int; extra : n list; setid : n; msgsetid : n; round : n;
+  flags : int; hf : n; badstart : n option; nohdr : n option; base : n; parents : n list;
+  tblk : n; tnum : n; drop : int; ents : ent list }
+
+let parse inp =
   let f = split_ws inp in
   let op = List.hd f in
   let (thr_opt, rest) = (match f with
     | "verify" :: t :: r -> (Some (n_of_hex t), r)
     | "handle" :: r -> (None, r)
     | _ -> fail "C18: bad input %s" inp) in
-  let (n, setid, msgsetid, round, has, rest) = (match op, rest with
-    | "handle", n :: s :: ms :: r :: h :: tl -> (int_of_n (n_of_hex n), n_of_hex s, n_of_hex ms, n_of_hex r, h = "1", tl)
-    | "verify", n :: s :: ms :: r :: tl -> (int_of_n (n_of_hex n), n_of_hex s, n_of_hex ms, n_of_hex r, false, tl)
+  let nfield s = (match String.index_opt s ':' with
+    | Some k -> (int_of_n (n_of_hex (String.sub s 0 k)), ints (String.sub s (k + 1) (String.length s - k - 1)))
+    | None -> (int_of_n (n_of_hex s), [])) in
+  let ((n, extra), setid, msgsetid, round, flags, rest) = (match op, rest with
+    | "handle", n :: s :: ms :: r :: h :: tl -> (nfield n, n_of_hex s, n_of_hex ms, n_of_hex r, int_of_n (n_of_hex h), tl)
+    | "verify", n :: s :: ms :: r :: tl -> (nfield n, n_of_hex s, n_of_hex ms, n_of_hex r, 0, tl)
     | _ -> fail "C18: bad input %s" inp) in
-  let (hf, badstart, base, parents, tblk, tnum, drop, ents) = (match rest with
-    | [hf; bs; base; ps; tb; tn; dr; es] ->
-      (n_of_hex hf, (if bs = "-" then None else Some (n_of_hex bs)), n_of_hex base, ints ps,
-       n_of_hex tb, n_of_hex tn, int_of_n (n_of_hex dr), parse_entries es)
-    | _ -> fail "C18: bad input %s" inp) in
+  match rest with
+  | [hf; bs; base; ps; tb; tn; dr; es] ->
+    let (bs, nh) = (match String.index_opt bs '/' with
+      | Some k -> (String.sub bs 0 k, Some (n_of_hex (String.sub bs (k + 1) (String.length bs - k - 1))))
+      | None -> (bs, None)) in
+    { op; thr_opt; n; extra; setid; msgsetid; round; flags; hf = n_of_hex hf;
+      badstart = (if bs = "-" then None else Some (n_of_hex bs)); nohdr = nh; base = n_of_hex base;
+      parents = ints ps; tblk = n_of_hex tb; tnum = n_of_hex tn; drop = int_of_n (n_of_hex dr);
+      ents = parse_entries es }
+  | _ -> fail "C18: bad input %s" inp
+
+let faults_of flags =
+  { f_has_err = flags land 2 <> 0; f_hf_err = flags land 4 <> 0; f_fin_err = flags land 8 <> 0;
+    f_store_err = flags land 16 <> 0 }
+
+(* the commit message of a case, given the recorded (verdict, signature label) of every entry *)
+let commit_of_case p obits =
+  let pcs = List.map (fun e -> { v_hash = e.blk; v_num = e.num }) p.ents in
+  let ads = List.map2 (fun e (ok, sg) -> { a_key = e.key; a_sig = sg; a_ok = ok }) p.ents obits in
+  let ads = take (List.length ads - p.drop) ads in
+  { cm_round = p.round; cm_setid = p.msgsetid; cm_vote = { v_hash = p.tblk; v_num = p.tnum };
+    cm_precommits = pcs; cm_authdata = ads }
+
+let check inp obs =
+  let p = parse inp in
   let of_ = split_ws obs in
-  let (ores, onfin, ofin, ostored, otracked, obits) = (match of_ with
-    | [a; b; c; d; e; g] -> (a, b, c, d, e, parse_bits g)
-    | _ -> ("shape", "0", "-", "0", "0", [])) in
-  if List.length obits <> List.length ents then
+  let (ores, onfin, ofin, ostored, otracked, obits, ohas, ostore) = (match of_ with
+    | [a; b; c; d; e; g; h; i] -> (a, b, c, d, e, parse_bits g, h, i)
+    | _ -> ("shape", "0", "-", "0", "0", [], "-", "-")) in
+  if List.length obits <> List.length p.ents then
     { prop_ok = true; model_eq = false; nontrivial = false; finding = "-"; tags = "bad-observation";
       detail = "observed entry bits do not match the entries: " ^ obs }
   else begin
-    let chain = tree_chain base parents badstart in
-    let auths = seqn 0 n in
-    let pcs = List.map (fun e -> { v_hash = e.blk; v_num = e.num }) ents in
-    let ads = List.map2 (fun e (ok, sg) -> { a_key = e.key; a_sig = sg; a_ok = ok }) ents obits in
-    let ads = take (List.length ads - drop) ads in
-    let m = { cm_round = round; cm_setid = msgsetid; cm_vote = { v_hash = tblk; v_num = tnum };
-              cm_precommits = pcs; cm_authdata = ads } in
+    let n = p.n and ents = p.ents in
+    let chain = tree_chain_h p.base p.parents p.badstart p.nohdr in
+    let auths = seqn 0 n @ p.extra in
+    let m = commit_of_case p obits in
+    let ads = m.cm_authdata in
+    let has = p.flags land 1 <> 0 in
     (* sanity of the recorded verdicts: a signature made for exactly this vote verifies, the other kinds do not *)
     let sig_sane = List.for_all2 (fun e (ok, _) -> ok = (e.kind = "v")) ents obits in
     let cnt = spec_count chain auths m in
-    let thr = (match thr_opt with Some t -> t | None -> threshold auths) in
+    let thr = (match p.thr_opt with Some t -> t | None -> threshold auths) in
     let rel = (match N.compare cnt thr with Lt -> "below" | Eq -> "at" | Gt -> "above") in
     let kinds = List.sort_uniq compare (List.map (fun e -> "kind-" ^ e.kind) ents) in
     let has_eqv = List.exists (fun k -> equivocator auths m k) auths in
@@ -79,28 +115,42 @@ let check inp obs =
     let dup = (let rec go = function [] -> false | x :: r -> List.mem x r || go r in
                go (List.map2 (fun e (_, sg) -> (e.key, e.blk, e.num, sg)) ents obits)) in
     let nonauth = List.exists (fun e -> int_of_n e.key >= n) ents in
-    let unknown = List.exists (fun e -> int_of_n e.blk > List.length parents) ents in
-    let common_tags = [op; "n-" ^ string_of_int n; "count-" ^ rel ^ "-threshold"] @ kinds
+    let unknown = List.exists (fun e -> int_of_n e.blk > List.length p.parents) ents in
+    let fault = List.exists (fun e -> entry_fault chain auths m.cm_vote e) (entries m) in
+    let common_tags = [p.op; "n-" ^ string_of_int n; "count-" ^ rel ^ "-threshold"] @ kinds
       @ (if has_eqv then ["true-equivocator"] else [])
       @ (if raw_eqv && not has_eqv then ["forged-or-same-vote-equivocation"] else [])
       @ (if dup then ["duplicate-entry"] else [])
       @ (if nonauth then ["non-authority"] else [])
       @ (if unknown then ["unknown-block"] else [])
-      @ (if drop > 0 then ["length-mismatch"] else [])
+      @ (if p.drop > 0 then ["length-mismatch"] else [])
+      @ (if p.extra <> [] then ["repeated-voter-in-list"] else [])
+      @ (if p.nohdr <> None then ["header-hidden"] else [])
+      @ (if fault then ["entry-fault"] else [])
       @ (if sig_sane then [] else ["verdict-unexpected"]) in
-    match thr_opt with
+    match p.thr_opt with
     | None ->
-      let (r, eff) = handle_commit chain auths setid has hf m in
-      let model = hres_str r ^ " " ^ eff_str eff in
-      let (rp, effp) = handle_commit_prefix chain auths setid has hf m in
+      let fl = faults_of p.flags in
+      let (r, eff) = handle_commit_f fl chain auths p.setid has p.hf m in
+      (* HasFinalisedBlock is asked once, for (commit round, current set id), unless the target check failed;
+         SetPrecommits is called with (commit round, commit set id, every listed precommit) *)
+      let has_args = (match r with
+        | FRes HNoTargetHeader | FRes HTargetNum -> "-"
+        | _ -> hex_of_n p.round ^ ":" ^ hex_of_n p.setid) in
+      let store_args = (match eff.stored with
+        | Some (rd, sid) -> hex_of_n rd ^ ":" ^ hex_of_n sid ^ ":" ^ Printf.sprintf "%x" (List.length m.cm_precommits)
+        | None -> "-") in
+      let model = String.concat " " [fres_str r; eff_str eff; has_args; store_args] in
+      let (rp, effp) = handle_commit_prefix chain auths p.setid has p.hf m in
       let prefix = hres_str rp ^ " " ^ eff_str effp in
-      let observed = String.concat " " [ores; onfin; ofin; ostored; otracked] in
+      let observed = String.concat " " [ores; onfin; ofin; ostored; otracked; ohas; ostore] in
+      let observed_short = String.concat " " [ores; onfin; ofin; ostored; otracked] in
       let fin = (match int_of_n (n_of_hex onfin), String.split_on_char ':' ofin with
         | 0, _ -> Some []
         | 1, [a; b; c] when a <> "?" -> Some [((n_of_hex a, n_of_hex b), n_of_hex c)]
         | _ -> None) in
       let prop = (match fin with
-        | Some l -> prop_holds chain auths setid m has (ores = "ok") l
+        | Some l -> prop_holds chain auths p.setid m has (ores = "ok") l
         | None -> false) in
       let guard = at_threshold chain auths m in
       (* the class of the former finding (exactly floor(2n/3) backers accepted): repaired by
@@ -108,20 +158,23 @@ let check inp obs =
          without that patch is reported under its name *)
       let finding = if (not prop) && guard && onfin = "1" then "commit-threshold-not-strict" else "-" in
       let eq = (model = observed) && sig_sane in
-      let reached = (match r with HAccepted | HRejected EMinVotes -> true | _ -> false) in
+      let reached = (match r with FRes HAccepted | FRes (HRejected EMinVotes) | FFinErr | FStoreErr -> true | _ -> false) in
+      let rtag = (match r with FRes HAlreadyFinalised -> "res-ok-noop" | _ -> "res-" ^ fres_str r) in
       { prop_ok = prop; model_eq = eq; nontrivial = reached && ents <> [];
         finding;
-        tags = String.concat "," (common_tags @ ["res-" ^ hres_str r ^ (if r = HAlreadyFinalised then "-noop" else "")]
+        tags = String.concat "," (common_tags @ [rtag]
+                                  @ (if p.flags land 30 <> 0 then ["collaborator-failure-injected"] else [])
                                   @ (if guard then ["exactly-threshold-backers"] else []));
         detail = (if prop && eq then "" else
                     Printf.sprintf "model=[%s] prefix-model=[%s] backers=%s threshold=%s n=%d%s%s" model prefix
-                      (hex_of_n cnt) (hex_of_n thr) n
-                      (if observed = prefix && observed <> model then " (implementation behaves as the pre-fix code)" else "")
+                      (hex_of_n cnt) (hex_of_n thr) (List.length auths)
+                      (if p.flags land 30 = 0 && p.nohdr = None && observed_short = prefix && prefix <> fres_str r ^ " " ^ eff_str eff
+                       then " (implementation behaves as the pre-fix code)" else "")
                       (if sig_sane then "" else " (recorded ed25519 verdicts are not the expected ones)")) }
     | Some t ->
-      let r = verify_commit chain auths setid t hf m in
+      let r = verify_commit chain auths p.setid t p.hf m in
       let model = res_str r in
-      let prefix = res_str (verify_commit_prefix chain auths setid t hf m) in
+      let prefix = res_str (verify_commit_prefix chain auths p.setid t p.hf m) in
       (* C18_verify_iff: success needs more than thr distinct backers *)
       let prop = (ores <> "ok") || (N.compare t cnt = Lt) in
       let eq = (model = ores) && sig_sane in
@@ -131,8 +184,41 @@ let check inp obs =
         tags = String.concat "," (common_tags @ ["res-" ^ model]);
         detail = (if prop && eq then "" else
                     Printf.sprintf "model=[%s] prefix-model=[%s] backers=%s threshold=%s n=%d%s" model prefix
-                      (hex_of_n cnt) (hex_of_n t) n
+                      (hex_of_n cnt) (hex_of_n t) (List.length auths)
                       (if ores = prefix && ores <> model then " (implementation behaves as the pre-fix code)" else "")) }
   end
 
-let () = run_driver check
+(* vm_compute cross-check: the model's answer recomputed inside Coq (C18/VmCheck.v) and compared
+   with the implementation's observables *)
+let coq_list f l = "[" ^ String.concat "; " (List.map f l) ^ "]"
+let coq_opt f = function None -> "None" | Some x -> "(Some " ^ f x ^ ")"
+let coq_bool b = if b then "true" else "false"
+let coq inp obs =
+  let p = parse inp in
+  match split_ws obs with
+  | [ores; onfin; ofin; ostored; otracked; g; _; _] when List.length (parse_bits g) = List.length p.ents ->
+    let m = commit_of_case p (parse_bits g) in
+    let auths = seqn 0 p.n @ p.extra in
+    let vote v = Printf.sprintf "(mkVote %s %s)" (coq_n v.v_hash) (coq_n v.v_num) in
+    let cm = Printf.sprintf "(mkCommit %s %s %s %s %s)" (coq_n m.cm_round) (coq_n m.cm_setid) (vote m.cm_vote)
+        (coq_list vote m.cm_precommits)
+        (coq_list (fun a -> Printf.sprintf "(mkAuth %s %s %s)" (coq_n a.a_key) (coq_n a.a_sig) (coq_bool a.a_ok)) m.cm_authdata) in
+    let chain = Printf.sprintf "(tree_chain_h %s %s %s %s)" (coq_n p.base) (coq_list coq_n p.parents)
+        (coq_opt coq_n p.badstart) (coq_opt coq_n p.nohdr) in
+    (match p.thr_opt with
+     | None ->
+       let fl = faults_of p.flags in
+       let fin = (match String.split_on_char ':' ofin with
+         | [a; b; c] when a <> "?" -> Some (n_of_hex a, n_of_hex b, n_of_hex c) | _ -> None) in
+       Some (Printf.sprintf "vm_handle (mkFaults %s %s %s %s) %s %s %s %s %s %s %s %s %s %s %s"
+               (coq_bool fl.f_has_err) (coq_bool fl.f_hf_err) (coq_bool fl.f_fin_err) (coq_bool fl.f_store_err)
+               chain (coq_list coq_n auths) (coq_n p.setid) (coq_bool (p.flags land 1 <> 0)) (coq_n p.hf) cm
+               (coq_n (n_of_int (code_of_res ores))) (coq_n (n_of_hex onfin))
+               (coq_opt (fun (a, b, c) -> Printf.sprintf "(%s, %s, %s)" (coq_n a) (coq_n b) (coq_n c)) fin)
+               (coq_n (n_of_hex ostored)) (coq_n (n_of_hex otracked)))
+     | Some t ->
+       Some (Printf.sprintf "vm_verify %s %s %s %s %s %s %s" chain (coq_list coq_n auths) (coq_n p.setid) (coq_n t)
+               (coq_n p.hf) cm (coq_n (n_of_int (code_of_res ores)))))
+  | _ -> None
+
+let () = run_driver ~coq check
